@@ -75,8 +75,20 @@ def adj_array(g, label="adjacency"):
 def _to_numpy_array(interp, g, *a, **k):
     from pyvc.interp import Undecided
 
+    nodelist = k.pop("nodelist", None) if k else None
     if not is_graph(g) or a or k:
         raise Undecided("nx.to_numpy_array on something that is not an abstract simple graph / with options")
+    if nodelist is not None:
+        # only the sorted node list of the same graph is modelled: sorted(G.nodes()) = [0..n-1], i.e. the order of the model
+        src = getattr(nodelist, "sorted_nodes_of", None)
+        ok = src is g or (isinstance(nodelist, list) and nodelist == list(range(concrete_int(g.payload["n"]) or -1)))
+        if not ok and src is not None and is_graph(src):
+            # the sorted label list [0..m-1] of ANOTHER abstract graph: it is this graph's sorted label list iff m == n
+            ok = interp.path.decide(to_z3(src.payload["n"]) == to_z3(g.payload["n"]))
+        if not ok:
+            raise Undecided("nx.to_numpy_array with a nodelist other than sorted(G.nodes())")
+        models.used("nx.to_numpy_array(G, nodelist=sorted(G.nodes())) = adjacency matrix in node order 0..n-1")
+        return adj_array(g)
     models.used("nx.to_numpy_array(G) = adjacency matrix in node order 0..n-1 (simple unweighted graph)")
     return adj_array(g)
 
@@ -152,7 +164,14 @@ def getattr_hook(interp, obj, attr):
         def nodes(i):
             n = concrete_int(obj.payload["n"])
             if n is None:
-                raise Undecided("G.nodes() of a graph with a symbolic number of nodes")
+                # symbolic size: the node view as a list of symbolic length; only sorted(...) of it is meaningful to callers
+                from pyvc.symlist import SymList
+
+                models.used("nx.Graph.nodes() on n symbolic nodes = the labels 0..n-1 (used only through sorted())")
+                lst = SymList(obj.payload["n"], lambda kk: to_z3(kk), "G.nodes()")
+                lst.sorted_nodes_of = obj  # already increasing: sorted() returns an equal list (see models sorted)
+                lst.increasing = True
+                return lst
             models.used("nx.Graph.nodes() = [0..n-1]")
             return list(range(n))
         return Builtin("nodes", nodes)
